@@ -44,6 +44,10 @@ def plan(tier, seed):
             ph = "PhaseSpaceFactorAbs" if (L + rep) % 2 == 0 else REAL_PHSP[(rep + c + p) % 3]
             cases.append({"cls": "RelativisticKMatrix", "n_ch": c, "n_poles": p, "L": L, "phsp": ph, "rep": rep, "sub": True,
                           "cost": 2 + (40 if c == 3 else 0)})
+    if tier == "quick":
+        # one relativistic 3-channel case (the symbolic 3x3 inverse costs ~30 s): (1 - i rho K-hat) is not symmetric there
+        cases.append({"cls": "RelativisticKMatrix", "n_ch": 3, "n_poles": 1, "L": 0, "phsp": "PhaseSpaceFactor", "rep": 0, "cost": 45})
+        cases.append({"cls": "NonRelativisticKMatrix", "n_ch": 3, "n_poles": 2, "L": 0, "phsp": None, "rep": 0, "cost": 35})
     # call histories in one process (matrix templates are cached per n_channels)
     for c in (1, 2):
         for k, seq in enumerate([[1, 2, 1], [2, 1, 3], [3, 1]]):
